@@ -13,6 +13,8 @@
                                                                          grid_copy_values (values picked, then blanked by
                                                                          Data.mask_by_extent on the new grid's centroids)
 
+   For rotated / dipped grids the selection matrix (which centres lie in the box) is an INPUT of grid_select, recomputed by
+   the driver from the observed centroids; for unrotated, undipped grids it is computed here (grid_sel / grid_centres2).
    Coordinates are integers (Z): the driver uses lattice coordinates for which the float comparisons are exact.
    An extent is the list of its columns [(lo_x, hi_x); (lo_y, hi_y)] or with a third (lo_z, hi_z): `zip` over the
    columns of the (2, N) array and the 3 coordinate columns stops at the shorter, so a 2-D extent ignores z.          *)
@@ -60,17 +62,26 @@ Definition obj_extent (ps : list pt) : res extent :=
       Ok [(zmin_list x xs, zmax_list x xs); (zmin_list y ys, zmax_list y ys); (zmin_list z zs, zmax_list z zs)]
   end.
 
-(* Points.mask_by_extent *)
-Definition points_mask (o : obj) (e : extent) (inv : bool) : res (option (list bool)) :=
-  match obj_extent (verts o) with
+(* the shape shared by Points.mask_by_extent (vertices), GridObject.mask_by_extent (centroids of a block model, octree,
+   2-D grid, ...) and Drillhole.mask_by_extent (the collar alone; its extent is the collar twice): None unless the box meets
+   the bounding box of the locations, else utils.mask_by_extent of the locations *)
+Definition located_mask (locs : list pt) (e : extent) (inv : bool) : res (option (list bool)) :=
+  match obj_extent locs with
   | Err er => Err er
   | Ok bb =>
       match box_intersect bb e with
       | Err er => Err er
       | Ok false => Ok None
-      | Ok true => Ok (Some (mask_by_extent (verts o) e inv))
+      | Ok true => Ok (Some (mask_by_extent locs e inv))
       end
   end.
+
+(* Points.mask_by_extent *)
+Definition points_mask (o : obj) (e : extent) (inv : bool) : res (option (list bool)) := located_mask (verts o) e inv.
+(* GridObject.mask_by_extent on the object's centroids (given: C17 proves the centroid formulas) *)
+Definition grid_object_mask (centroids : list pt) (e : extent) (inv : bool) := located_mask centroids e inv.
+(* Drillhole.mask_by_extent: the collar only *)
+Definition drillhole_mask (collar : pt) (e : extent) (inv : bool) := located_mask [collar] e inv.
 
 (* orphan_mask = zeros; orphan_mask[cells[cell_mask].flatten()] = True *)
 Definition used_by (n : nat) (cs : list (list nat)) : list bool := map (fun i => memb i (concat cs)) (seq 0 n).
@@ -116,6 +127,17 @@ Definition copy_from_extent (o : obj) (e : extent) (inv : bool) : copy_result :=
                    end
   end.
 
+(* Group.copy_from_extent: every child is asked for its own copy_from_extent into the new group; the group copy is removed
+   again (None) when no child produced anything.  [copies] = the children's own results, None = nothing selected *)
+Definition group_copy_from_extent {A} (copies : list (option A)) : option (list A) :=
+  match flat_map (fun c => match c with Some x => [x] | None => [] end) copies with
+  | [] => None
+  | l => Some l
+  end.
+
+Definition child_copy (o : obj) (e : extent) (inv : bool) : option obj :=
+  match copy_from_extent o e inv with CCopy c => Some c | _ => None end.
+
 (* Data.mask_by_extent for a child of a Points/Curve/Surface (no centroids): no bounding-box test, no orphan logic *)
 Definition data_mask (o : obj) (a : assoc) (e : extent) (inv : bool) : res (option (list bool)) :=
   match a with
@@ -138,6 +160,15 @@ Fixpoint col_any (rows : list (list bool)) (nu : nat) : list bool :=     (* np.a
                map (fun i => nth i r false || nth i rest false) (seq 0 nu)
   end.
 Definition row_any (rows : list (list bool)) : list bool := map any_b rows.   (* np.any(sel, axis=1) *)
+
+(* unrotated, undipped Grid2D, in half units so that everything is an integer: the centre of cell (i, j) is
+   origin + ((i + 1/2) du, (j + 1/2) dv, 0); rows of the selection matrix = closed-box test of the centres *)
+Definition grid_centre2 (ox oy oz du dv : Z) (i j : nat) : pt :=
+  (2 * ox + (2 * Z.of_nat i + 1) * du, 2 * oy + (2 * Z.of_nat j + 1) * dv, 2 * oz)%Z.
+Definition grid_centres2 (ox oy oz du dv : Z) (nu nv : nat) : list (list pt) :=
+  map (fun j => map (fun i => grid_centre2 ox oy oz du dv i j) (seq 0 nu)) (seq 0 nv).
+Definition grid_sel (e2 : extent) (centres : list (list pt)) : list (list bool) :=
+  map (map (fun p => in_box (coords p) e2)) centres.
 
 (* np.kron(v_ind, u_ind).flatten() on booleans *)
 Definition kron (v u : list bool) : list bool := concat (map (fun b => map (fun c => b && c) u) v).
@@ -186,6 +217,24 @@ Definition copy_eqb (a : copy_result) (b : option (res osnap)) : bool :=
   | CNone, None => true
   | CCopy o, Some (Ok s) => snap_eqb (snap_live o) s
   | CErr x, Some (Err y) => err_eqb x y
+  | _, _ => false
+  end.
+
+(* groups: does the model's copy of one child agree with the observed one, and which children does the group copy keep *)
+Definition child_agrees (o : obj) (e : extent) (inv : bool) (obs : option osnap) : bool :=
+  match child_copy o e inv, obs with
+  | Some c, Some s => snap_eqb (snap_live c) s
+  | None, None => true
+  | _, _ => false
+  end.
+Definition as_unit {A} (c : option A) : option unit := match c with Some _ => Some tt | None => None end.
+Fixpoint kept_from (i : nat) (l : list (option unit)) : list nat :=
+  match l with [] => [] | Some _ :: r => i :: kept_from (S i) r | None :: r => kept_from (S i) r end.
+(* observed: None, or the indices (in the source's child order) of the children found in the copy, in the copy's order *)
+Definition group_agrees (copies : list (option unit)) (obs : option (list nat)) : bool :=
+  match group_copy_from_extent copies, obs with
+  | None, None => true
+  | Some _, Some idx => list_eqb Nat.eqb (kept_from 0 copies) idx
   | _, _ => false
   end.
 
